@@ -452,17 +452,34 @@ func canonSched(cmd kit.Cmd, v respx.Value) string {
 	case "SMEMBERS", "KEYS":
 		var xs []string
 		for _, e := range v.Arr {
-			xs = append(xs, e.String())
+			xs = append(xs, flat(e))
 		}
 		sort.Strings(xs)
 		return "set" + fmt.Sprint(xs)
 	case "HGETALL":
 		var xs []string
 		for i := 0; i+1 < len(v.Arr); i += 2 {
-			xs = append(xs, v.Arr[i].String()+"="+v.Arr[i+1].String())
+			xs = append(xs, flat(v.Arr[i])+"="+flat(v.Arr[i+1]))
 		}
 		sort.Strings(xs)
 		return "hash" + fmt.Sprint(xs)
+	}
+	return flat(v)
+}
+
+// flat renders a reply with simple strings and bulk strings alike (TYPE answers "none" as a bulk string
+// for a key past its deadline and as a simple string for a key that is not there: the same answer to any
+// client; which of the two string types carries it is not what this oracle is about).
+func flat(v respx.Value) string {
+	switch {
+	case v.Kind == respx.Simple, v.Kind == respx.Bulk && !v.Null:
+		return strconv.Quote(string(v.Str))
+	case v.Kind == respx.Array && !v.Null:
+		parts := make([]string, len(v.Arr))
+		for i, e := range v.Arr {
+			parts[i] = flat(e)
+		}
+		return "[" + strings.Join(parts, " ") + "]"
 	}
 	return v.String()
 }
@@ -494,6 +511,11 @@ func schedPrepare(c Case, n int) ([]*inproc.DB, time.Time, string) {
 			db.Do(kit.MkCmd("EXPIRE", k, "1").Bytes())
 		}
 	}
+	if time.Now().Unix() != t.Unix() {
+		// (overloaded machine) the second ended while the deadlines were being set: the servers do not agree
+		// on which keys are past their deadline; nothing can be concluded from this case
+		return nil, time.Time{}, "infrastructure: setting the one-second deadlines on all servers took longer than the rest of the second"
+	}
 	time.Sleep(time.Until(t.Truncate(time.Second).Add(time.Second + 15*time.Millisecond)))
 	return dbs, t.Add(time.Second), ""
 }
@@ -511,20 +533,20 @@ func schedDump(db *inproc.DB) (string, string) {
 	}
 	for _, k := range schedKeys {
 		ty := do("TYPE", k)
-		fmt.Fprintf(&sb, "%s:%s", k, ty.String())
+		fmt.Fprintf(&sb, "%s:%s", k, flat(ty))
 		switch string(ty.Str) {
 		case "string":
-			sb.WriteString(do("GET", k).String())
+			sb.WriteString(flat(do("GET", k)))
 		case "list":
-			sb.WriteString(do("LRANGE", k, "0", "-1").String() + do("LLEN", k).String())
+			sb.WriteString(flat(do("LRANGE", k, "0", "-1")) + do("LLEN", k).String())
 		case "set":
 			sb.WriteString(canonSched(kit.MkCmd("SMEMBERS"), do("SMEMBERS", k)) + do("SCARD", k).String())
 		case "hash":
 			sb.WriteString(canonSched(kit.MkCmd("HGETALL"), do("HGETALL", k)))
 		case "zset":
-			sb.WriteString(do("ZRANGE", k, "0", "-1", "WITHSCORES").String())
+			sb.WriteString(flat(do("ZRANGE", k, "0", "-1", "WITHSCORES")))
 		case "stream":
-			sb.WriteString(do("XRANGE", k, "-", "+").String())
+			sb.WriteString(flat(do("XRANGE", k, "-", "+")))
 		}
 		ttl := do("TTL", k)
 		switch {
